@@ -95,7 +95,15 @@ impl TwoFloat {
     /// assert!((b - c).abs() < 1e-10);
     /// ```
     pub fn asinh(self) -> Self {
-        (self + (self * self + 1.0).sqrt()).ln()
+        // asinh is odd: evaluating on |x| avoids the cancellation in
+        // x + sqrt(x^2 + 1) for negative x.
+        let x = self.abs();
+        let result = (x + (x * x + 1.0).sqrt()).ln();
+        if self.is_sign_negative() {
+            -result
+        } else {
+            result
+        }
     }
 
     /// Inverse hyperbolic tangent function.
